@@ -1,3 +1,84 @@
-From NCG Require Import Model.Revocation.
-Theorem C04_placeholder : True. Proof. exact I. Qed.
-Print Assumptions C04_placeholder.
+(* C04 - OCSP yields OK only on an authentic, current Good answer by an authorised signer.
+   Statements only; proofs in Proofs/Ocsp.v.  [outcome] is what happens when a responder URL is
+   contacted (an arbitrary function: every assignment of behaviours to any number of URLs),
+   [now] the clock, [st] the signing time (0 = none).  Authentic / Current / SaysGood /
+   SaysRevoked are the declarative readings of the property text (Proofs/Ocsp.v, top). *)
+From NCG Require Import Model.Ocsp Proofs.Ocsp.
+
+Theorem C04_ok_sound : forall outcome now st, 0 < now -> forall urls,
+  cr_result (fst (ocsp_check outcome now st urls)) = ROK ->
+  exists u r l1 l2, urls = l1 ++ u :: l2 /\ outcome u = UResp r /\ Authentic r /\ Current now r /\ SaysGood st r /\
+    (forall v, In v l1 -> server_check outcome now st v = CError).
+Proof. exact ok_sound. Qed.
+Print Assumptions C04_ok_sound.
+
+Theorem C04_revoked_sound : forall outcome now st, 0 < now -> forall urls,
+  cr_result (fst (ocsp_check outcome now st urls)) = RRevoked ->
+  exists u r l1 l2, urls = l1 ++ u :: l2 /\ outcome u = UResp r /\ Authentic r /\ Current now r /\ SaysRevoked st r /\
+    (forall v, In v l1 -> server_check outcome now st v = CError).
+Proof. exact revoked_sound. Qed.
+Print Assumptions C04_revoked_sound.
+
+(* the whole result: the first decisive responder decides, otherwise one Unknown entry per responder *)
+Theorem C04_exact : forall outcome now st urls, urls <> [] ->
+  fst (ocsp_check outcome now st urls) =
+  match find (dec outcome now st) urls with
+  | Some u => let r := sclass_res (server_check outcome now st u) in CRes r [SRes r u] MOCSP
+  | None => CRes RUnknown (map (SRes RUnknown) urls) MOCSP
+  end.
+Proof. exact ocsp_check_exact. Qed.
+Print Assumptions C04_exact.
+
+(* a response saying Revoked (authentic, current, not excused by the invalidity date) at the first
+   decisive responder yields Revoked, and only that does *)
+Theorem C04_revoked_iff : forall outcome now st urls, urls <> [] ->
+  (cr_result (fst (ocsp_check outcome now st urls)) = RRevoked <->
+   exists u, find (dec outcome now st) urls = Some u /\ server_check outcome now st u = CRevoked).
+Proof. exact revoked_iff. Qed.
+Print Assumptions C04_revoked_iff.
+
+Theorem C04_ok_iff : forall outcome now st urls, urls <> [] ->
+  (cr_result (fst (ocsp_check outcome now st urls)) = ROK <->
+   exists u, find (dec outcome now st) urls = Some u /\ server_check outcome now st u = COk).
+Proof. exact ok_iff. Qed.
+Print Assumptions C04_ok_iff.
+
+Theorem C04_server_ok_iff : forall outcome now st, 0 < now -> forall u,
+  server_check outcome now st u = COk <->
+  exists r, outcome u = UResp r /\ Authentic r /\ Current now r /\ SaysGood st r.
+Proof. exact server_check_ok. Qed.
+Print Assumptions C04_server_ok_iff.
+
+Theorem C04_server_revoked_iff : forall outcome now st, 0 < now -> forall u,
+  server_check outcome now st u = CRevoked <->
+  exists r, outcome u = UResp r /\ Authentic r /\ Current now r /\ SaysRevoked st r.
+Proof. exact server_check_revoked. Qed.
+Print Assumptions C04_server_revoked_iff.
+
+(* unsigned / signed by anyone else (incl. the certificate being checked or a sibling without the
+   OCSP-signing usage) / other serial / expired / no next-update / Unknown status / Revoked that
+   counts: that responder's answer is never OK *)
+Theorem C04_never_ok : forall outcome now st, 0 < now -> forall u,
+  (outcome u = UBadURL \/ outcome u = UErr \/
+   exists r, outcome u = UResp r /\
+     (o_sig_valid r = false \/ o_serial_match r = false \/
+      (exists a b, o_signer r = ByEmbedded false a b) \/
+      (exists a, o_signer r = ByEmbedded a false false) \/
+      o_next r < now \/
+      o_status r = SUnknownStatus \/
+      (o_status r = SRevoked /\ (st = 0 \/ o_inv r = InvAbsent \/ o_inv r = InvUnusable \/ exists t, o_inv r = InvDate t /\ t <= st)))) ->
+  server_check outcome now st u <> COk.
+Proof. exact never_ok. Qed.
+Print Assumptions C04_never_ok.
+
+Theorem C04_all_fail : forall outcome now st urls, urls <> [] ->
+  (forall u, In u urls -> dec outcome now st u = false) ->
+  fst (ocsp_check outcome now st urls) = CRes RUnknown (map (SRes RUnknown) urls) MOCSP.
+Proof. exact all_fail. Qed.
+Print Assumptions C04_all_fail.
+
+(* responders are contacted in order, up to and including the first decisive one *)
+Theorem C04_contact_log : forall outcome now st urls,
+  snd (ocsp_check outcome now st urls) = filter (contacts outcome) (upto outcome now st urls).
+Proof. exact ocsp_check_log. Qed.
+Print Assumptions C04_contact_log.
